@@ -99,6 +99,10 @@ def build(cfg):
                     extra_inputs.append((uid("rin"), r.f.f.r_data))
                 if acc == "rw1c":
                     extra_inputs.append((uid("set"), r.f.f.set))
+            if late == "swap":
+                # constructed over a placeholder map; the real one is assigned through the bus's public setter
+                x = csr.Multiplexer(MemoryMap(addr_width=aw, data_width=8))
+                x.bus.memory_map = mm
             if x is None:
                 x = csr.Multiplexer(mm)
             m.submodules[uid("mux")] = x
@@ -462,7 +466,7 @@ def configs(tier):
     ev20 = ("evmon", 20, 0)        # 3-chunk mask registers: 'pending' sits at the unaligned range 3..6
     gp = ("gpio", 2, 2)
     mx_late = ("mux", 3, [(8, None, "rw"), (16, 2, "rw"), (8, None, "r"), (12, 6, "rw")], 2)
-    mx_all = ("mux", 3, [(20, 1, "rw"), (8, None, "w")], None)
+    mx_all = ("mux", 3, [(20, 1, "rw"), (8, None, "w")], "swap")
     cdec1 = ("dec", 5, 0, [S(br_a, name="a"), S(ev1), S(gp, name="gpio")])
     cdec2 = ("dec", 5, 0, [S(ev3, addr=16), S(br_b, addr=0, name="b")])
     cdec_nested = ("dec", 6, 0, [S(br_c, name="c"), S(("dec", 4, 0, [S(ev1, name="ev"), S(br_b)]), name="inner", align_to=5)])
@@ -515,7 +519,7 @@ def configs(tier):
 
 def run_config(cfg, tier, seed):
     res = explore_hw(build, Observer, cfg, tier, seed, max_states=2_500_000, max_seconds=900 if tier == "quick" else 5000)
-    if res.get("refused") and "mx_late" in repr(cfg.get("tag", "")) and "add_resource" in str(res.get("refusal", {}).get("where", "")):
+    if res.get("refused") and "mx_late" in repr(cfg.get("tag", "")) and res.get("refusal", {}).get("where", "").split(":")[-1] in ("add_resource", "memory_map"):
         return res      # a multiplexer may freeze the map it is given: registers added afterwards are then refused (nothing to explore)
     if res.get("refused"):
         # the grammar only produces hierarchies the toolkit is supposed to accept: a refusal means the
